@@ -49,7 +49,9 @@ def st_case(draw):
         hi = lo + draw(st.integers(1, 30)) * sp
         if k == "add_tick":
             at = draw(st.sampled_from([None, None, "lower", "upper", "inside", "t1", "tm1"]))
-            ops.append(["add_tick", lo, hi, draw(st.sampled_from(["0.5", "3", "0"])), draw(st.sampled_from(["1000", "20", "0"])), at])
+            # bounds on the spacing grid, or off it (trimmed to the nearest usable tick: incl. exact ties at half a spacing)
+            jl, jh = draw(st.sampled_from([0, 0, 0, sp // 2, 1, sp - 1])), draw(st.sampled_from([0, 0, 0, sp // 2, 1, sp - 1]))
+            ops.append(["add_tick", lo + jl, hi + jh, draw(st.sampled_from(["0.5", "3", "0"])), draw(st.sampled_from(["1000", "20", "0"])), at])
             npos += 1
         elif k == "add_price":
             ops.append(["add_price", lo, hi, draw(st.sampled_from(["0.5", "2"])), draw(st.sampled_from(["1500", "40"]))])
